@@ -217,21 +217,58 @@ def gen(rng):
             add('\torg\t%d' % pc)
             kinds.append('cpu')
         elif k == 15 and not phased and m.cpu != '16c84':
+            # (nested) structure/union definition: named levels prefix their name, unnamed levels do not (manual: Nameless Structures);
+            # fields[] collects (name relative to the outermost structure, offset in it) for the instantiation below
+            fields = []
+
+            def level(name, union, depth, prefix, base):
+                add('%s\t%s' % (name or '', 'union' if union else 'struct'))
+                offs = 0
+                mx = 0
+                for _ in range(rng.randrange(1, 5)):
+                    here = base + (0 if union else offs)
+                    r = rng.random()
+                    if depth < 3 and r < 0.35 and m.cpu != '320c25':     # (320c25: open finding on field names, flat structures only)
+                        sub_union = rng.random() < 0.4
+                        if rng.random() < 0.5:
+                            sub = newlab('s')
+                            fields.append((prefix + sub.upper(), here))
+                            n = level(sub, sub_union, depth + 1, prefix + sub.upper() + '_', here)
+                            fields.append((prefix + sub.upper() + '_LEN', None, n))
+                        else:
+                            n = level(None, sub_union, depth + 1, prefix, here)
+                        kinds.append('nested-' + ('union' if sub_union else 'struct'))
+                    else:
+                        f = newlab('f')
+                        n = rng.randrange(1, 9)
+                        add('%s\t%s\t%d' % (f, rop, n))
+                        fields.append((prefix + f.upper(), here))
+                    offs += n
+                    mx = max(mx, n)
+                add('%s\t%s' % (name or '', 'endunion' if union else 'endstruct'))
+                return mx if union else offs
+
             union = rng.random() < 0.4
             sname = newlab('st')
-            add('%s\t%s' % (sname, 'union' if union else 'struct'))
-            offs = 0
-            mx = 0
-            for _ in range(rng.randrange(1, 5)):
-                f = newlab('f')
-                n = rng.randrange(1, 9)
-                add('%s\t%s\t%d' % (f, rop, n))
-                exp_sym['%s_%s' % (sname.upper(), f.upper())] = 0 if union else offs
-                offs += n
-                mx = max(mx, n)
-            add('%s\t%s' % (sname, 'endunion' if union else 'endstruct'))
-            exp_sym['%s_LEN' % sname.upper()] = mx if union else offs
+            total = level(sname, union, 1, '', 0)
+            for fld in fields:
+                if fld[1] is None:
+                    exp_sym['%s_%s' % (sname.upper(), fld[0])] = fld[2]
+                else:
+                    exp_sym['%s_%s' % (sname.upper(), fld[0])] = fld[1]
+            exp_sym['%s_LEN' % sname.upper()] = total
             kinds.append('union' if union else 'struct')
+            if m.cpu not in ('320c25',) and room(total + 40) and rng.random() < 0.6 and not (m.seg in ('data', 'idata') and m.cpu == '8051'):
+                # instantiation: reserves the structure's size and defines every element at its address
+                iname = newlab('i')
+                add('%s\t%s' % (iname, sname))
+                here = m.pc[m.seg] + m.cur_off()
+                exp_sym[iname.upper()] = here
+                for fld in fields:
+                    if fld[1] is not None:
+                        exp_sym['%s_%s' % (iname.upper(), fld[0])] = here + fld[1]
+                m.pc[m.seg] += total
+                kinds.append('instance')
     while m.save:
         add('\trestore')
         m.cpu, m.seg = m.save.pop()
